@@ -12,6 +12,12 @@ from pynetdicom.sop_class import Verification
 
 rec = load()
 ob = rec.get("id", "")
+if "run_reactor" in rec.get("id", "") and "DULServiceProvider" in rec.get("id", ""):
+    from dul_common import reactor_check
+    _bad = reactor_check()
+    if _bad:
+        done(True, **_bad)
+    done(False, note="the real DUL reactor loop behaved as the contract says on the scripted iterations")
 LIMIT = 5.0          # timeouts are 1 s; margin for scheduling
 
 
